@@ -153,7 +153,7 @@ PROPS = {
     },
     "C09": {
         "controls": ["BIT"],
-        "rules": [("RT-1", tab2.rt1), ("RT-2", tab2.rt2), ("TAB-6", tab2.tab6), ("FLW-6", flw2.flw6), ("BIT-2", bit.bit2), ("FLW-7", flw2.flw7), ("RT-3", r5.rt3), ("RT-4", r5.rt4), ("RT-5", r5.rt5)],
+        "rules": [("RT-1", tab2.rt1), ("RT-2", tab2.rt2), ("TAB-6", tab2.tab6), ("FLW-6", flw2.flw6), ("BIT-2", bit.bit2), ("FLW-7", flw2.flw7), ("RT-3", r5.rt3), ("RT-4", r5.rt4), ("RT-5", r5.rt5), ("RT-6", r5.rt6)],
         "explanation": "Decides three necessary conditions of the text round trip, none of them the round trip itself. RT-1 writer/reader agreement of the suprasegmental notation: "
                        "Word::render_normal writes primary stress as the mark Word::setup reads as Primary, secondary likewise, opens every non-initial unstressed syllable with '.', "
                        "writes a segment equal to its predecessor as 'ː' (read back as a repetition of the last segment) and a non-zero tone as its decimal digits (parsed back into "
@@ -166,7 +166,7 @@ PROPS = {
     },
     "C10": {
         "controls": ["PUR-3"],
-        "rules": [("PUR-3", pur.pur3), ("PUR-4", pur.pur4), ("PUR-5", pur.pur5), ("RT-3", r5.rt3), ("RT-4", r5.rt4), ("PUR-6", r5.pur6)],
+        "rules": [("PUR-3", pur.pur3), ("PUR-4", pur.pur4), ("PUR-5", pur.pur5), ("RT-3", r5.rt3), ("RT-4", r5.rt4), ("PUR-6", r5.pur6), ("PUR-7", r5.pur7)],
         "explanation": "Decides the statelessness / grouping clause of C10: applying a rule list is a left fold `word = rule.apply(word)?` over groups and rules in "
                        "order with no early exit, no adaptor and no other loop-carried state (PUR-5); the step depends only on its arguments: no global state "
                        "(PUR-3), binding tables fresh or reset (PUR-4). Hence regrouping and empty groups cannot matter.",
@@ -175,7 +175,7 @@ PROPS = {
     },
     "C11": {
         "controls": ["PUR-1", "PUR-3"],
-        "rules": [("PUR-1", pur.pur1), ("PUR-3", pur.pur3), ("PUR-4", pur.pur4), ("PUR-5", pur.pur5), ("PUR-6", r5.pur6)],
+        "rules": [("PUR-1", pur.pur1), ("PUR-3", pur.pur3), ("PUR-4", pur.pur4), ("PUR-5", pur.pur5), ("PUR-6", r5.pur6), ("PUR-7", r5.pur7)],
         "explanation": "Decides C11 structurally: one result per input line in input order (apply_rule_groups pushes exactly one word per word and one phrase per line, "
                        "iterating front to back with no break/continue/adaptor; parse_phrases / phrases_to_string use only order- and count-preserving adaptors, "
                        "split(' ') / + \" \" / one trim_end); no cross-word channel: the per-word loop starts from word.clone() and carries only the word, no "
